@@ -404,7 +404,7 @@ pub fn explore(w: &World, r: usize, cfg: &L1Cfg, check_edge: &(dyn Fn(&Edge) -> 
             // plain restart
             let restarted = node.local.restarted();
             if restarted != node.local {
-                let out = StepOut { local: restarted, sent: vec![], outcome: Some(Ok(())), crashed: false, blocked: false, set_state_calls: 0, deadline_expired: false, synced_blocks: 0, published: None, runner_error: None };
+                let out = StepOut { local: restarted, sent: vec![], outcome: Some(Ok(())), crashed: false, blocked: false, set_state_calls: 0, deadline_expired: false, synced_blocks: 0, published: None, runner_error: None, panicked: None };
                 handle(&mut e, "process restarts".into(), InputKind::Restart, out);
             }
             Some(e)
